@@ -24,7 +24,7 @@ def cases(tier, seed):
     out = []
     states = ["", "p", "pd", "prd", "ppp"]
     for st in states:
-        for direction in ("submit|shutdown", "shutdown|submit", "shutdown|complete"):
+        for direction in ("submit|shutdown", "shutdown|submit", "shutdown|complete", "shutdown|shutdown"):
             for resub in (False, True):
                 out.append({"name": "cos.race/%s/%s/resub=%s" % (direction, st or "-", int(resub)), "kind": "sweep",
                             "dir": direction, "earlier": st, "resub": resub,
@@ -93,6 +93,9 @@ class CosScenario(object):
     def intervene(self, ctx):
         if self.case["dir"].startswith("submit"):
             self.do_shutdown(ctx)
+        elif self.case["dir"].endswith("|shutdown"):
+            # a second shutdown() while the first is under way
+            call("shutdown", ctx.ex.shutdown, True, _tag="second")
         elif self.case["dir"].endswith("complete"):
             # every outstanding future finishes by itself while shutdown() is under way
             for i in ctx.me.pending():
@@ -104,7 +107,10 @@ class CosScenario(object):
             self.do_submit(ctx, "racer")
 
     def finish(self, ctx):
-        pass
+        # shutting down again later (e.g. leaving a ``with`` block after an explicit shutdown) changes nothing
+        if hasattr(ctx, "snapshot"):
+            call("shutdown", ctx.ex.shutdown, True, _tag="again")
+            call("shutdown", ctx.ex.shutdown, False, _tag="again")
 
     def oracle(self, ctx, res, info):
         for a in (info.get("victim"), info.get("iact")):
